@@ -40,6 +40,9 @@ TRUSTED = [
     "asyncio.gather contract (normal return => every child done; return_exceptions=False: first child exception or CancelledError of a cancelled child is raised while the others keep running)",
     "cooperative atomicity: one event loop, one OS thread; control leaves a task only at an await that suspends or at a call-out to user code",
     "user code touches the pool only through its public API (U1), calling a coroutine function runs no user code (U3), user code raises only Exception subclasses or CancelledError (U7)",
+    "U4: pool_size is not assigned while tasks are in flight (used by C01-C14; NOT assumed for C15)",
+    "U5: the task awaiting flush()/gather_and_close() is not itself cancelled; unlock() is not called while gather_and_close() is in progress; U6: flush()/gather_and_close() are not awaited from a callback of one of the pool's own tasks",
+    "U9: the argument iterator of a map call does not cancel its own group re-entrantly (excluded by the text of C07); U10: coroutines, coroutine functions and callables handed to the pool are truthy",
     "container ADT facts (dict/set cardinality, KeyError on missing key, duplicate-free iteration in insertion order, MutableSet.pop removes a member)",
     "value semantics for TaskGroupRegister / meta-task sets stored in pool dicts (no object is stored under two keys)",
     "counting-permission meta-theorem (number of token owners <= outstanding tokens)",
